@@ -259,7 +259,14 @@ func C13(c *ev.Ctx) {
 				if when == 0 {
 					continue
 				}
-				for _, mode := range []string{"crash", "fault"} {
+				modes := []string{"crash", "fault"}
+				if size == 1 && st.name == "old" {
+					// one size / setup walks through every errno for every system call of the operation
+					for k := 1; k < len(faultErrnos); k++ {
+						modes = append(modes, "fault")
+					}
+				}
+				for _, mode := range modes {
 					if mode == "fault" && l.Name == "close" {
 						continue
 					}
